@@ -7,8 +7,9 @@ lemmas live in `IsoVerif.Lemmas.Pico*`.
 `C03_statement`: no collection panics, and every collection keeps, with unchanged value, stamps
 and dependency list, every node reachable from a root the property names — the retained ids and
 the `cap` most recently called distinct top-level queries.  It is FALSE of today's code (witnesses
-below, replayed on the real crate): while a top-level query is re-verified, its dependencies are
-pushed onto `top_level_calls` after it and evict it from the LRU.  What is proved: the LRU refines
+below, replayed on the real crate): the collector panics on a retained reference to a node that an
+earlier collection removed, and after a first call that panicked.  (The LRU eviction of a
+re-verified query by its own dependencies was repaired together with F22.)  What is proved: the LRU refines
 "last `cap` distinct" of the sequence it is fed (`C03_lru_spec`), the collector keeps everything
 reachable from ITS roots unchanged and only ever removes nodes (`C03_gc_keeps_reachable`,
 `C03_gc_only_removes`), its LRU is "last `cap` distinct" of everything ever pushed onto
@@ -51,10 +52,13 @@ def C03_statement : Prop := ∀ fuel cap P h, C03_statement_at fuel cap P h
 def progLru : Prog := [⟨0, .call 1 .param⟩, ⟨0, .src .param⟩]
 def histLru : List Op := [.set 0 1, .set 1 0, .call 0 0, .set 1 5, .call 0 0, .gc]
 
-/-- capacity 1: the most recently called top-level query `(0,0)` is not there after the collection. -/
-theorem C03_witness_lru_evicted : ¬ C03_statement_at 8 1 progLru histLru := fun H =>
-  absurd ((H [.set 0 1, .set 1 0, .call 0 0, .set 1 5, .call 0 0] [] rfl).2 ⟨0, 0⟩ (by decide +kernel)
-            ⟨0, 0⟩ (Reach.refl _)) (by decide +kernel)
+/-- (repaired with F22, /repo) capacity 1: the most recently called top-level query `(0,0)` used to be
+evicted from the LRU by its own dependency, which was pushed onto `top_level_calls` while the query
+was re-verified.  On the repaired code it is still there after the collection, unchanged. -/
+example : alookup (after 8 1 progLru histLru).derived ⟨0, 0⟩ =
+    alookup (after 8 1 progLru [.set 0 1, .set 1 0, .call 0 0, .set 1 5, .call 0 0]).derived ⟨0, 0⟩ ∧
+    (alookup (after 8 1 progLru histLru).derived ⟨0, 0⟩).isSome = true := by
+  decide +kernel
 
 /-- the collection panics: a reference to a node that an earlier collection removed is retained. -/
 theorem C03_witness_gc_panic_stale_retain :
@@ -66,7 +70,7 @@ theorem C03_witness_gc_panic_after_failed_call :
     ¬ C03_statement_at 8 10 [⟨0, .src .param⟩] [.call 0 0, .gc] := fun H =>
   absurd (H [.call 0 0] [] rfl).1 (by decide +kernel)
 
-theorem C03_statement_false : ¬ C03_statement := fun H => C03_witness_lru_evicted (H 8 1 _ _)
+theorem C03_statement_false : ¬ C03_statement := fun H => C03_witness_gc_panic_stale_retain (H 8 1 _ _)
 
 /-! ### what is proved -/
 
@@ -119,15 +123,15 @@ theorem C03_roots_are_spec (s : Storage) :
 
 /-- **The LRU against the whole history.**  After any history, the LRU the next collection will use
 is exactly "the last `cap` distinct ids" of EVERYTHING ever pushed onto `top_level_calls` (the ghost
-field `pushes`: the user's calls and, finding F-C03, the dependencies re-verified under them). -/
+field `pushes`; since the repair of F22 these are exactly the top-level calls the user made). -/
 theorem C03_lru_invariant (fuel : Nat) (P : Prog) (cap : Nat) (hcap : 1 ≤ cap) (h : List Op) :
     gcLru (after fuel cap P h) = lastDistinct cap (after fuel cap P h).pushes :=
   (lru_invariant fuel P cap hcap h).1
 
-/-- a history across a collection; `pushes` holds more than the user's calls -/
+/-- a history across a collection -/
 example : 1 ≤ 2 ∧
     (after 8 2 progLru [.set 0 1, .set 1 0, .call 0 0, .set 1 5, .call 0 0, .gc, .call 1 1, .call 0 0]).pushes
-      = [⟨0, 0⟩, ⟨0, 0⟩, ⟨1, 0⟩, ⟨1, 1⟩, ⟨0, 0⟩] ∧
+      = [⟨0, 0⟩, ⟨0, 0⟩, ⟨1, 1⟩, ⟨0, 0⟩] ∧
     gcLru (after 8 2 progLru [.set 0 1, .set 1 0, .call 0 0, .set 1 5, .call 0 0, .gc, .call 1 1, .call 0 0])
       = [⟨0, 0⟩, ⟨1, 1⟩] := by decide +kernel
 
